@@ -236,7 +236,8 @@ def run(F, R, tier):
         for q in tabc.ok():
             n_okc += 1
             segs = {a[3]: c for (a, c, _, _) in q.decisions if a[0] == "hasseg" and a[1] == JB}
-            r1.require(segs.get(1) is True and segs.get(2) is True and segs.get(3) is False, (cfn, "three-segments"),
+            # hasseg is monotone: "segment 2 exists" covers segment 1, "segment 3 does not" covers the later ones
+            r1.require(max([k_ for k_, c_ in segs.items() if c_ is True] or [0]) == 2 and min([k_ for k_, c_ in segs.items() if c_ is False] or [99]) == 3, (cfn, "three-segments"),
                        "decode_compact_serialization accepts without having established exactly three segments (decided: %s): bytes after the signature segment are neither signed nor rejected" % sorted(segs.items()))
             ds = [e for e in q.calls(r"Decoder::decode_signature$") if q.succeeded(e) is not False]      # (its result is usually returned as it is)
             ep = [e for e in q.calls(r"Decoder::expand_payload$") if q.succeeded(e) is True]
